@@ -155,38 +155,48 @@ def s_chars(ex, st, func, args, ty):
 
 
 def s_iter_count(ex, st, func, args, ty):
-    it = obj(st, args[0])
-    if st.heap[it.oid].get('skip') is not None or st.heap[it.oid].get('take') is not None: raise Broken('count on a skipped/taken iterator is not modelled')
-    return [(st, BV(bv64(len(st.heap[it.oid]['model']))))]
+    it = obj(st, args[0]); return [(st, BV(bv64(len(st.heap[it.oid]['model']))))]
 
 
-def s_iter_skip(ex, st, func, args, ty):
-    it = obj(st, args[0])
-    if st.heap[it.oid].get('skip') is not None or st.heap[it.oid].get('take') is not None: raise Broken('skip after skip/take is not modelled')
-    st.heap[it.oid]['skip'] = args[1].t; return [(st, it)]
+def _cut(ex, st, args, which):
+    """Iterator::take(n) / skip(n) on a modelled iterator: fork over the effective count, so that everything downstream
+    has a concrete length"""
+    it = obj(st, args[0]); items = list(st.heap[it.oid]['model']); L = len(items); n = args[1].t; out = []
+    for k in range(L + 1):
+        c = (n == k) if k < L else z3.UGE(n, L)
+        if ex.feasible(st, c):
+            s2 = st.clone(); s2.pc.append(c)
+            o = seqobj(s2, st.meta[it.oid][1], items[:k] if which == 'take' else items[k:]); out.append((s2, o))
+    return out
 
 
-def s_iter_take(ex, st, func, args, ty):
-    it = obj(st, args[0])
-    if st.heap[it.oid].get('take') is not None: raise Broken('take after take is not modelled')
-    st.heap[it.oid]['take'] = args[1].t; return [(st, it)]
+def s_iter_skip(ex, st, func, args, ty): return _cut(ex, st, args, 'skip')
+def s_iter_take(ex, st, func, args, ty): return _cut(ex, st, args, 'take')
 
 
 def s_collect_string(ex, st, func, args, ty):
-    it = obj(st, args[0]); items = list(st.heap[it.oid]['model']); L = len(items)
-    sk = st.heap[it.oid].get('skip'); tk = st.heap[it.oid].get('take')
-    out = []
-    for lo in range(L + 1):
-        c_lo = z3.BoolVal(lo == 0) if sk is None else (sk == lo if lo < L else z3.UGE(sk, L))
-        if z3.is_false(z3.simplify(c_lo)): continue
-        for hi in range(lo, L + 1):
-            c_hi = z3.BoolVal(hi == L) if tk is None else (tk == hi - lo if hi < L else z3.UGE(tk, L - lo))
-            c = z3.And(c_lo, c_hi)
-            if z3.is_false(z3.simplify(c)): continue
-            if ex.feasible(st, c):
-                s2 = st.clone(); s2.pc.append(c)
-                out.append((s2, seqobj(s2, 'String', [b for g in items[lo:hi] for b in g])))
-    return out
+    it = obj(st, args[0]); items = list(st.heap[it.oid]['model'])
+    return [(st, seqobj(st, 'String', [b for g in items for b in (g if isinstance(g, tuple) else (g,))]))]
+
+
+def s_collect_map(ex, st, func, args, ty):
+    """collect::<IndexMap<K, V>>() of (key, value) pairs: later equal keys replace earlier ones in place"""
+    it = obj(st, args[0]); pairs = []
+    for t in st.heap[it.oid]['model']:
+        t = obj(st, t); k = obj(st, st.heap[t.oid][('f', None, 0)]); v = st.heap[t.oid][('f', None, 1)]
+        for i_, (kk, vv) in enumerate(pairs):
+            if same_key(st, kk, k): pairs[i_] = (kk, v); break
+        else: pairs.append((k, v))
+    return [(st, seqobj(st, 'IndexMap', pairs))]
+
+
+def s_mem_take(ex, st, func, args, ty):
+    """std::mem::take(&mut x): the old value out, an empty default in"""
+    r = args[0]; old = deref(st, r)
+    if isinstance(old, ObjV) and 'model' in st.heap[old.oid]:
+        st.heap[r.oid][r.key] = seqobj(st, st.meta[old.oid][1], ())
+        return [(st, old)]
+    return None
 
 
 def s_vec_index_range(ex, st, func, args, ty):
@@ -283,10 +293,10 @@ def make_summaries(argtable):
             (r'as IntoIterator>::into_iter$', s_identity), (r'<std::ops::Range<usize> as Iterator>::next$', s_range_next), (r'as Iterator>::next$', s_iter_next),
             (r'as Iterator>::rev$|DoubleEndedIterator>::rev$', s_iter_rev),
             (r'impl str>::chars$', s_chars), (r'as Iterator>::count$', s_iter_count), (r'as Iterator>::skip$', s_iter_skip), (r'as Iterator>::take$', s_iter_take),
-            (r'as Iterator>::collect::<std::string::String>$|as Iterator>::collect::<String>$', s_collect_string),
+            (r'as Iterator>::collect::<std::string::String>$|as Iterator>::collect::<String>$', s_collect_string), (r'as Iterator>::collect::<IndexMap<', s_collect_map), (r'std::mem::take::<', s_mem_take),
             (r'Vec::<.*>::push$', s_seq_push), (r'Vec::<.*>::insert$', s_vec_insert), (r'IndexMap::<.*>::insert$', s_map_insert), (r'IndexMap::<.*>::contains_key::', s_contains_key),
             (r'IndexMap::<.*>::get::<', s_map_get), (r'impl \[.*\]>::get::<usize>$|Vec::<.*>::get::<usize>$', s_vec_get), (r'IndexMap::<.*>::keys$|IndexMap::<.*>::into_keys$', s_map_keys), (r'IndexMap::<.*>::values$|IndexMap::<.*>::into_values$', s_map_values),
-            (r'as Iterator>::collect::<Vec<JsonValue>>$', s_collect_vec), (r'as Iterator>::map::<JsonValue', s_map_into_json),
+            (r'as Iterator>::collect::<Vec<', s_collect_vec), (r'as Iterator>::map::<JsonValue', s_map_into_json),
             (r'impl \[.*\]>::first$', s_first), (r'impl \[.*\]>::last$', s_last), (r'Option::<.*>::cloned$|as Iterator>::cloned(::<.*>)?$', s_cloned),
             (r'<Vec<.*> as Clone>::clone$|<IndexMap<.*> as Clone>::clone$', lambda ex, st, f, a, t: [(st, seqobj(st, st.meta[obj(st, a[0]).oid][1], model(st, a[0])))]),
             (r'<JsonValue as Clone>::clone$|<std::string::String as Clone>::clone$', s_clone_shared), (r'as Deref>::deref$', s_identity),
